@@ -578,6 +578,16 @@ func (e *Evaluator) evalBinaryExpr(expr *ExprBinary) (*Cell, error) {
 		return nil, e.error(expr.Right.Token(), "expected a type name")
 	}
 
+	switch expr.OpToken.Tag {
+	case Equal, LSquare, Dot:
+		// the target of an assignment and the receiver of a member access are
+		// places, not values
+	default:
+		// an operand has the value it had when it was evaluated, left first:
+		// the right operand may assign to the variable the left one names
+		left = &Cell{Value: left.Value}
+	}
+
 	right, err := e.evalExpr(expr.Right)
 	if err != nil {
 		return nil, err
